@@ -580,13 +580,14 @@ where
         }
         thread.0 = InternalSendAlloc::A(cur_result.alloc, UnionHasher::Uninit);
     }
-    compression_result?;
-    match bro_cat_li.finish(output, &mut out_file_size) {
-        BroCatliResult::Success => compression_result = Ok(out_file_size),
-        err => {
-            compression_result = Err(BrotliEncoderThreadError::ConcatenationFinalizationError(
-                err,
-            ))
+    if compression_result.is_ok() {
+        match bro_cat_li.finish(output, &mut out_file_size) {
+            BroCatliResult::Success => compression_result = Ok(out_file_size),
+            err => {
+                compression_result = Err(
+                    BrotliEncoderThreadError::ConcatenationFinalizationError(err),
+                )
+            }
         }
     }
     if let Ok(retrieved_owned_input) = spawner_and_input.unwrap() {
